@@ -244,6 +244,16 @@ func runFoScenario(d *Driver, id string, sc foScenario, res *Result) (trace []st
 	okBuildDone := map[int]bool{}  // a build for the key succeeded (and was stored)
 	failedAt := map[int]bool{}     // a build for the key failed with the failure cache on
 	cancels := make([]func(), n)
+	defer func() { // (release the deadline timers of the caller contexts)
+		s.mu.Lock()
+		cs := append([]func(){}, cancels...)
+		s.mu.Unlock()
+		for _, c := range cs {
+			if c != nil {
+				c()
+			}
+		}
+	}()
 
 	kidOf := foKid
 	summary := func() string {
@@ -524,6 +534,13 @@ func runFoScenario(d *Driver, id string, sc foScenario, res *Result) (trace []st
 					return v
 				}
 			}
+			// FailedUpdateTTL = -1 disables the failure cache (C03): the owner of a key lock is then never answered with an
+			// error it did not obtain from the builder itself (waiters share the owner's error; owners have nobody to share with)
+			if sc.Cfg.FUT < 0 && !sc.Collide && r.err != nil && !sc.Threads[t].CancelFirst && !threadBuilt[t] && d.Ask(fmt.Sprintf("fo owner %s %d", id, t)) == "1" {
+				if v := emit(&foViolation{"C03", "monitor", "fo:failure-remembered-cache-off", fmt.Sprintf("after %s: FailedUpdateTTL is -1 (failure cache disabled), yet Get #%d for k%d, owner of its key lock, returned error %v without invoking the builder", step, t, sc.Threads[t].Key, r.err), []string{"C05"}}); v != nil {
+					return v
+				}
+			}
 		}
 		return nil
 	}
@@ -640,7 +657,10 @@ func runFoScenario(d *Driver, id string, sc foScenario, res *Result) (trace []st
 			go func() {
 				ready <- goid()
 				<-goAhead
-				cctx, cancel := context.WithCancel(context.WithValue(ctx, tidKey{}, t))
+				// every caller context carries a (far away) deadline: a background build must not see it (C06)
+				dctx, dcancel := context.WithDeadline(context.WithValue(ctx, tidKey{}, t), time.Now().Add(time.Hour))
+				cctx, ccancel := context.WithCancel(dctx)
+				cancel := func() { ccancel(); dcancel() }
 				cancels[t] = cancel
 				if th.Skip {
 					cctx = cache.WithSkipRead(cctx)
